@@ -37,7 +37,10 @@ MCcfg ==
                  seg |-> << [id |-> "g9", addr |-> 0] >>, rev |-> <<>>] >>,
    trains |-> << [id |-> "t1", al |-> 35, ah |-> 1, steps |-> 28, cal |-> <<5, 15, 30, 45, 60, 75, 90, 105, 126>>,
                   per |-> << [id |-> "f0", bit |-> 0, initial |-> -1], [id |-> "f4", bit |-> 4, initial |-> 1], [id |-> "f9", bit |-> 9, initial |-> -1] >>],
-                 [id |-> "t2", al |-> 2, ah |-> 3, steps |-> 126, cal |-> <<>>, per |-> <<>>] >>]
+                 [id |-> "t2", al |-> 2, ah |-> 3, steps |-> 126, cal |-> <<>>,
+                  per |-> << [id |-> "h24", bit |-> 24, initial |-> -1], [id |-> "h31", bit |-> 31, initial |-> -1], [id |-> "h16", bit |-> 16, initial |-> -1],
+                              [id |-> "h23", bit |-> 23, initial |-> -1], [id |-> "h8", bit |-> 8, initial |-> -1], [id |-> "h11", bit |-> 11, initial |-> -1],
+                              [id |-> "h12", bit |-> 12, initial |-> -1], [id |-> "h15", bit |-> 15, initial |-> -1] >>] >>]
 
 MCpaths == [b \in {"bA", "bB"} |-> IF b = "bA" THEN <<>> ELSE <<1>>]
 
@@ -81,6 +84,7 @@ Cmds ==
     \cup {K("bidib_set_calibrated_train_speed", <<t, "bA">>, v) : t \in {"t1", "t2"}, v \in {-10, -9, 0, 1, 9}}
     \cup {K("bidib_emergency_stop_train", <<"t1", o>>, 0) : o \in {"bA", "zz"}}
     \cup {K("bidib_set_train_peripheral", <<"t1", f, o>>, v) : f \in {"f0", "f4", "f9", "zz"}, o \in {"bA", "bB"}, v \in {0, 1, 2}}
+    \cup {K("bidib_set_train_peripheral", <<"t2", f, "bA">>, v) : f \in {"h24", "h31", "h16", "h23", "h8", "h11", "h12", "h15"}, v \in {0, 1}}
     \cup {K("bidib_set_booster_power_state", <<b>>, v) : b \in {"bA", "bB", "zz"}, v \in {0, 1}}
     \cup {K("bidib_set_track_output_state", <<b>>, v) : b \in {"bA", "bB"}, v \in {0, 3, 8}}
     \cup {K("bidib_set_track_output_state_all", <<>>, 3)}
